@@ -396,6 +396,20 @@ class RegexPatternProvider(MorphingProvider):
 T = TypeVar("T")
 
 
+def make_str_constructor_loader(cls: type[T]) -> Loader[T]:
+    """Loader for the classes whose constructor takes a string representation (UUID, IP addresses, paths)"""
+
+    def str_constructor_loader(data):
+        if not isinstance(data, str):
+            raise TypeLoadError(str, data)
+        try:
+            return cls(data)  # type: ignore[call-arg]
+        except ValueError as e:
+            raise ValueLoadError(str(e), data)
+
+    return str_constructor_loader
+
+
 class ScalarProvider(MorphingProvider, Generic[T]):
     def __init__(
         self,
